@@ -6,6 +6,67 @@ Require Import F204.Base.Util F204.Base.Mach F204.Gen.Params F204.Gen.Guards F20
   F204.Hash.HashIface F204.Impl.Helpers F204.Impl.Ntt F204.Impl.HighLow F204.Impl.Conversion
   F204.Impl.Encodings F204.Impl.Hashing F204.Impl.MlDsa F204.Impl.Api.
 Require F204.Hash.Keccak F204.Hash.Sha2.
+Require F204.Spec.SpecConv F204.Spec.SpecRound F204.Spec.SpecNtt F204.Spec.SpecSample F204.Spec.SpecMLDSA.
+
+(* helper for the constructed-signature generator: the commitment hash FIPS 204 Verify_internal
+   recomputes (Algorithm 8 lines 5-12) for a given response z and hint h.  For a public key with
+   t1 = 0 it does not depend on the challenge, so any (z, h) can be completed to a signature. *)
+Definition spec_ctilde (H : Hashes) (P : Params) (pk M' : bytes) (c_tilde_in : bytes) (z h : list (list Z)) : option bytes :=
+  let '(rho, t1) := SpecConv.pkDecode (p_k P) pk in
+  match SpecSample.ExpandA H P rho, SpecSample.SampleInBall H (p_tau P) c_tilde_in with
+  | Some A_hat, Some c =>
+      let tr := h_shake256 H pk 64 in
+      let mu := h_shake256 H (tr ++ M') 64 in
+      let t1d := map (map (fun x => x * 2 ^ SpecConv.d)) t1 in
+      let w := SpecMLDSA.vinvNTT (SpecMLDSA.vsub (SpecNtt.MatrixVectorNTT A_hat (SpecMLDSA.vNTT z))
+                 (SpecNtt.ScalarVectorNTT (SpecNtt.NTT c) (SpecMLDSA.vNTT t1d))) in
+      let w1 := map2 (map2 (SpecRound.UseHint (p_gamma2 P))) h w in
+      Some (h_shake256 H (mu ++ SpecConv.w1Encode P w1) (Z.to_nat (p_lambda_div4 P)))
+  | _, _ => None
+  end.
+
+Definition spec_mod_pm := SpecConv.mod_pm.
+Definition spec_CoeffFromThreeBytes := SpecConv.CoeffFromThreeBytes.
+Definition spec_CoeffFromHalfByte := SpecConv.CoeffFromHalfByte.
+Definition spec_SimpleBitPack := SpecConv.SimpleBitPack.
+Definition spec_BitPack := SpecConv.BitPack.
+Definition spec_SimpleBitUnpack := SpecConv.SimpleBitUnpack.
+Definition spec_BitUnpack := SpecConv.BitUnpack.
+Definition spec_HintBitPack := SpecConv.HintBitPack.
+Definition spec_HintBitUnpack := SpecConv.HintBitUnpack.
+Definition spec_pkEncode := SpecConv.pkEncode.
+Definition spec_pkDecode := SpecConv.pkDecode.
+Definition spec_skEncode := SpecConv.skEncode.
+Definition spec_skDecode := SpecConv.skDecode.
+Definition spec_sigEncode := SpecConv.sigEncode.
+Definition spec_sigDecode := SpecConv.sigDecode.
+Definition spec_w1Encode := SpecConv.w1Encode.
+Definition spec_Power2Round := SpecRound.Power2Round.
+Definition spec_Decompose := SpecRound.Decompose.
+Definition spec_HighBits := SpecRound.HighBits.
+Definition spec_LowBits := SpecRound.LowBits.
+Definition spec_MakeHint := SpecRound.MakeHint.
+Definition spec_UseHint := SpecRound.UseHint.
+Definition spec_NTT := SpecNtt.NTT.
+Definition spec_invNTT := SpecNtt.invNTT.
+Definition spec_negacyclic := SpecNtt.negacyclic.
+Definition spec_zetas := SpecNtt.zetas.
+Definition spec_MatrixVectorNTT := SpecNtt.MatrixVectorNTT.
+Definition spec_SampleInBall := SpecSample.SampleInBall.
+Definition spec_RejNTTPoly := SpecSample.RejNTTPoly.
+Definition spec_RejBoundedPoly := SpecSample.RejBoundedPoly.
+Definition spec_ExpandA := SpecSample.ExpandA.
+Definition spec_ExpandS := SpecSample.ExpandS.
+Definition spec_ExpandMask := SpecSample.ExpandMask.
+Definition spec_KeyGen_internal := SpecMLDSA.KeyGen_internal.
+Definition spec_Sign_internal := SpecMLDSA.Sign_internal.
+Definition spec_Verify_internal := SpecMLDSA.Verify_internal.
+Definition spec_Sign := SpecMLDSA.Sign.
+Definition spec_HashSign := SpecMLDSA.HashSign.
+Definition spec_Verify := SpecMLDSA.Verify.
+Definition spec_HashVerify := SpecMLDSA.HashVerify.
+Definition spec_M_pure := SpecMLDSA.M_pure.
+Definition spec_M_hash := SpecMLDSA.M_hash.
 Extraction Language OCaml.
 
 Definition z_ops := (Z.add, Z.mul, Z.opp, Z.div, Z.modulo, Z.ltb, Z.eqb, Z.of_nat, Z.to_nat).
@@ -22,4 +83,6 @@ Extraction "../ocaml/model.ml"
   key_gen key_gen_internal sign_internal verify_internal expand_private expand_public private_to_public_key
   try_keygen_with_rng keygen_from_seed try_sign_with_rng try_hash_sign_with_rng get_public_key
   verify hash_verify sk_try_from_bytes sk_into_bytes pk_try_from_bytes pk_into_bytes
-  internal_sign internal_verify dudect_keygen_sign_with_rng.
+  internal_sign internal_verify dudect_keygen_sign_with_rng
+  spec_mod_pm spec_CoeffFromThreeBytes spec_CoeffFromHalfByte spec_SimpleBitPack spec_BitPack spec_SimpleBitUnpack spec_BitUnpack spec_HintBitPack spec_HintBitUnpack spec_pkEncode spec_pkDecode spec_skEncode spec_skDecode spec_sigEncode spec_sigDecode spec_w1Encode spec_Power2Round spec_Decompose spec_HighBits spec_LowBits spec_MakeHint spec_UseHint spec_NTT spec_invNTT spec_negacyclic spec_zetas spec_MatrixVectorNTT spec_SampleInBall spec_RejNTTPoly spec_RejBoundedPoly spec_ExpandA spec_ExpandS spec_ExpandMask spec_KeyGen_internal spec_Sign_internal spec_Verify_internal spec_Sign spec_HashSign spec_Verify spec_HashVerify spec_M_pure spec_M_hash
+  spec_ctilde.
